@@ -112,6 +112,10 @@ def main(argv=None):
     if pid in reuse.PIDS:  # life-cycle workload shared by every property that is reached through a cached accessor
         for i in range(2 if a.tier == "quick" else 6):
             specs.append({"kind": "reuse", "sub": i, "cases": 40 if a.tier == "quick" else 1500, "budget_s": 100 if a.tier == "quick" else 600})
+    from . import present
+    if pid in present.PIDS:  # presentation workload: containers, parameter spellings, failures that must leave nothing behind
+        for i in range(2 if a.tier == "quick" else 6):
+            specs.append({"kind": "reuse", "mode": "present", "sub": i, "cases": 36 if a.tier == "quick" else 1200, "budget_s": 100 if a.tier == "quick" else 600})
     for i, s in enumerate(specs):
         s.setdefault("shard", i)
         s.setdefault("seed", seed)
